@@ -297,6 +297,12 @@ func (w *world) fullLogin(rawURI string, o tokOpts, rt string, rng *mrand.Rand) 
 func (w *world) logoutStep(rs reqSpec) M {
 	before := w.viewOf(w.jars[w.b])
 	rs.rawURI = w.logout
+	if (T.prop == "C15" || T.prop == "C11") && w.step%2 == 0 && rs.xfHost == "" {
+		// the standardised forwarding header (RFC 7239), which any client can send and Traefik neither sets nor strips: where the logout
+		// lands is not the sender's to choose
+		rs.hdrs = append(rs.hdrs, [2]string{"Forwarded", []string{"for=192.0.2.7;host=evil.test;proto=https", "host=\"evil.test:8443\";proto=http, for=198.51.100.1", "proto=https;host=evil.test"}[w.step/2%3]})
+		T.stat("handler.logout.with-forwarded-header")
+	}
 	if T.prop == "C11" && w.step%3 == 1 && len(w.jars[w.b]) > 0 {
 		// the browser does not attach its cookies to the logout request (they are Secure and the request is plain http; or SameSite
 		// and the request cross-site) but takes over the answer: the session still ends
